@@ -122,8 +122,14 @@ func (t typ) gamma(v int) *big.Int {
 // short: write decimals without trailing fraction zeros ("20" instead of "20.000")
 var short bool
 
+// negZero: write the integer zero as "-0" (a legal integer-value; it denotes 0)
+var negZero bool
+
 func (t typ) lit(x *big.Int) string {
 	if t.fd == 0 {
+		if negZero && x.Sign() == 0 && t.lo.Sign() < 0 {
+			return "-0"
+		}
 		return x.String()
 	}
 	neg := x.Sign() < 0
@@ -302,6 +308,7 @@ func exec(kind byte, body []byte) *core.Verdict {
 			steps = []string{t.tokStr(c.Toks, []string{"", " "}[ti%2])}
 		}
 		short = ti%2 == 1
+		negZero = ti%2 == 0
 		for si := range steps { // (rendered again under the literal style of this type)
 			if c.Mode == "parts" {
 				steps[si] = t.rangeStr(c.Steps[si], []string{" | ", "|", " |"}[ti%3])
@@ -480,6 +487,7 @@ func gen(body []byte) *core.Verdict {
 	rng := rand.New(rand.NewSource(q.Seed*15485863 + int64(q.Tid)))
 	all := typesFor(true)
 	t := all[rng.Intn(len(all))]
+	short, negZero = rng.Intn(2) == 0, rng.Intn(3) == 0 // the spelling of this trace's literals (a function of seed and tid alone)
 	v := &core.Verdict{OK: true, Class: "generated", NT: true}
 	span := new(big.Int).Sub(t.hi, t.lo)
 	rndVal := func(pool []*big.Int) *big.Int {
